@@ -522,15 +522,16 @@ LEVELS["C16"] = dict(
          "TLS and the reverse-proxy header path are runtime.")
 
 LEVELS["C17"] = dict(
-    text="Partial. Theorems over the routing model (sequential semantics), for every number of swarm workers and every history: every "
-         "message is delivered to the connection named in the swarm worker's meta data and to no other, never to a closed one; a scrape "
-         "naming torrents gets exactly one reply on the sender's connection; a second peer id for a torrent the connection has not stopped "
-         "is answered with the error and the connection is torn down; after a connection closed, no swarm worker holds a peer entry "
-         "created by it. Tied to the code by histories against running trackers for {1,2,3}^2 workers with connection identities read "
-         "through a hook.",
-    design_ref="DESIGN.md §7 C17", technique="Coq invariant proofs over the routing model + in-Coq correspondence with running trackers (hook H8)",
-    note="Trusted: Coq kernel, models, harness, hook H8. Partial: interleavings of the request / control / reply channel meshes are "
-         "runtime and outside the sequential model.")
+    text="Partial (sequential semantics). Theorems over the routing model, for every number of swarm workers and every history: the invariant "
+         "'every peer entry of every swarm worker belongs to a live connection whose clean-up record names it' holds initially and is "
+         "preserved by every action; hence after a connection closed - or was refused for a second peer id - no swarm worker holds a peer "
+         "entry created by it; no action makes a worker fail; every message is delivered to the connection named in the swarm worker's "
+         "meta data and to no other, never to a closed one; a scrape naming torrents gets exactly one reply on the sender's connection; a "
+         "second peer id for a torrent the connection has not stopped gets the error and the connection is torn down. Tied to the code by "
+         "histories against running trackers for {1,2,3}^2 workers with connection identities read through a hook.",
+    design_ref="DESIGN.md §7 C17, §11", technique="Coq invariant proofs over the routing model + in-Coq correspondence with running trackers (hook H8)",
+    note="Trusted: Coq kernel, models, harness, hook H8. Partial: interleavings of the request / control / reply channel meshes (e.g. a "
+         "ConnectionClosed control message overtaking an announce still in flight) are runtime and outside the sequential model.")
 
 LEVELS["C19"] = dict(
     text="Partial. Theorems about the watchdog model for every list of workers, every ending (return Ok, return Err, panic) and every moment "
